@@ -34,13 +34,17 @@ type faultSession struct {
 func newFaultSession(c Cfg) *faultSession {
 	fs := &faultSession{Session: NewSession(c), cmpFail: -1}
 	fs.marFail = -1
+	base := fs.Session.marshal
+	if base == nil {
+		base = json.Marshal
+	}
 	fs.Session.marshal = func(v interface{}) ([]byte, error) {
 		n := fs.marCount
 		fs.marCount++
 		if n == fs.marFail {
 			return nil, errInjected
 		}
-		return json.Marshal(v)
+		return base(v)
 	}
 	def := mast.DefaultKeyCompare(fs.Session.marshal)
 	fs.Session.keyCompare = func(a, b interface{}) (int, error) {
